@@ -135,6 +135,8 @@ def valEq : Val → Val → Option Bool
   | .str _, .nil => some false
   | .nil, .list _ => some false
   | .list _, .nil => some false
+  | .nil, .tuple _ => some false     -- a (non-nil) map given as its entries against nil
+  | .tuple _, .nil => some false
   | _, _ => none
 
 def binOp (op : String) (a b : Val) : Option Val :=
@@ -224,6 +226,7 @@ def evalE {σ : Type} (P : Prims σ) (env : Env) (w : σ) : Expr → Option (Val
     match evalE P env w e with
     | some (.list vs, w') => some (.int vs.length, w')
     | some (.nil, w') => some (.int 0, w')
+    | some (.tuple (.str "$map" :: ps), w') => some (.int ps.length, w')     -- a Go map given as its entries (see `.range`)
     | _ => none
   | .call f args =>
     match evalEs P env w args with
@@ -352,6 +355,15 @@ def evalS {σ : Type} (P : Prims σ) (env : Env) (w : σ) : Stmt → Option (Env
             (fun (e', w'', c) => (Env.leave e' e.length, w'', c)))
         0 vs env w1)
     | some (.nil, w1) => some (env, w1, .norm)
+    | some (.tuple (.str "$map" :: ps), w1) =>
+      -- a Go map, given as its entries `.tuple [key, value]` in the order in which this run enumerates them
+      (loopM (fun _ x e w' =>
+          match x with
+          | .tuple [kk, vv] =>
+            (evalB P (Env.def (Env.def e k kk) v vv) w' body).map
+              (fun (e', w'', c) => (Env.leave e' e.length, w'', c))
+          | _ => none)
+        0 ps env w1)
     | _ => none
   | .forc init cond post body =>
     match evalB P env w init with
